@@ -159,7 +159,8 @@ void user_read(const void *p, size_t n);
 void user_write(const void *p, size_t n);
 void yield();                    // scheduling hint hook
 void progress();                 // reset spin detection of the current task (harness loop boundary)
-void sync_hook();                // a sync-kind hook without memory effect (op boundary, policy call)
+void sync_hook();
+void stall_release();         // ends a long stall (plan knob stall_hold): the stalled task may be scheduled again                // a sync-kind hook without memory effect (op boundary, policy call)
 // user-level synchronisation carrying a happens-before edge (mailboxes, grace periods)
 struct Channel { VC clk; bool full = false; };
 void hb_release(VC &into);       // into ⊔= my clock; my clock ticks
